@@ -30,16 +30,16 @@ import vcommon as V, circ, designgen as G
 
 CID = "C10"
 WORK = V.BUILD / "work" / CID
-HANDS = ["h_clockfam0", "h_clockfam1", "h_clockfam2", "h_clockfam3", "h_mem_rmw", "h_mem_condwrite", "h_mem_multi", "h_mem_wrorder", "h_retime_enable", "h_retime_intersect", "h_retime_hint", "h_negreg",
+HANDS = ["h_areafam0", "h_areafam1", "h_areafam2", "h_areafam3", "h_clockfam0", "h_clockfam1", "h_clockfam2", "h_clockfam3", "h_mem_rmw", "h_mem_condwrite", "h_mem_multi", "h_mem_wrorder", "h_retime_enable", "h_retime_intersect", "h_retime_hint", "h_negreg",
          "h_hier_partition", "h_hier_entity", "h_small_hier", "h_multiclock", "h_fifo", "h_dcfifo", "h_wide_logic"]
 OMODES = ["single", "entity", "partition"]
 TOOLS = ["default", "ghdl", "vivado", "quartus"]
 KNOWN_PARTITION = "partition-file-order"
 HEAP_MODES = ["unperturbed construction (plain malloc)",
               "operator new randomly perturbed during construction (second-of-two candidates, dummies) + holes punched before it",
-              "address-sorted pools per 16 byte size class, handed out in DESCENDING address order",
-              "address-sorted pools per 16 byte size class, handed out in ASCENDING address order",
-              "address-sorted pools per 16 byte size class, handed out in random order"]
+              "address-sorted pools per 16 byte size class (<= 2 KB), refilled before construction / post-processing / export / simulation, handed out in DESCENDING address order",
+              "address-sorted pools per 16 byte size class (<= 2 KB), refilled before every phase, handed out in ASCENDING address order",
+              "address-sorted pools per 16 byte size class (<= 2 KB), refilled before every phase, handed out in random order"]
 MAX_CERT_INPUT_BITS = 8
 MAX_CERT_REG_BITS = 12
 # files whose content is (only) a list of source files in the order of AST::getSourceFiles()
@@ -175,6 +175,92 @@ def audit_comparators(repo):
     return dict(comparators=found, findings=sorted(set(findings)))
 
 
+# ---------------------------------------------------------------------------------------------------
+# HEURISTIC lint, second part: operator< / operator> / operator<=> defined INSIDE a struct or class of
+# export/vhdl (they order what std::sort / std::set / std::map of the exporter iterate).  If the struct holds
+# a union or raw pointer members, the operator may not touch them: a union that overlays indices with
+# pointers (ConcurrentStatement::ref) read through an integer member orders by ADDRESS without any visible
+# pointer comparison.  Allowed: `ptr->getId()`.  `= default` on such a struct is rejected.  Regex based,
+# fail closed on what it cannot parse; it proves nothing, it only narrows where address order can enter.
+# ---------------------------------------------------------------------------------------------------
+def _unsafe_members(body):
+    """(names of union variables + members of unions, names of raw pointer members) of a struct body"""
+    unions, ptrs = set(), set()
+    i = 0
+    flat = []
+    while i < len(body):
+        m = re.compile(r"\bunion\b[^;{]*\{").search(body, i)
+        if not m:
+            flat.append(body[i:]); break
+        flat.append(body[i:m.start()])
+        end = _balanced(body, m.end() - 1)
+        ub = body[m.end():end - 1]
+        for decl in ub.split(";"):
+            mm = re.search(r"(\w+)\s*(?:\[[^\]]*\])?\s*$", decl.strip())
+            if mm and decl.strip():
+                unions.add(mm.group(1))
+        tail = re.match(r"\s*(\w+)?\s*;", body[end:])
+        if tail and tail.group(1):
+            unions.add(tail.group(1))
+        i = end + (tail.end() if tail else 0)
+    rest, depth, out = "".join(flat), 0, []
+    for ch in rest:
+        if ch == "{":
+            depth += 1
+        elif ch == "}":
+            depth -= 1
+        elif depth == 0:
+            out.append(ch)
+    for decl in "".join(out).split(";"):
+        if "(" in decl or "*" not in decl:
+            continue
+        mm = re.search(r"\*\s*(?:const\s+)?(\w+)\s*(?:=[^,]*)?$", decl.strip())
+        if mm:
+            ptrs.add(mm.group(1))
+    return unions, ptrs
+
+
+def audit_ordering_operators(repo):
+    base = os.path.join(str(repo), "source", "gatery", "export", "vhdl")
+    found, findings = [], []
+    for f in sorted(os.listdir(base)) if os.path.isdir(base) else []:
+        if not f.endswith((".h", ".cpp")):
+            continue
+        t = _strip_comments(open(os.path.join(base, f), errors="replace").read())
+        rel = os.path.join("source/gatery/export/vhdl", f)
+        structs = []
+        for m in re.finditer(r"\b(?:struct|class)\s+(\w+)\b[^;{()]*\{", t):
+            end = _balanced(t, m.end() - 1)
+            if end > 0:
+                structs.append((m.group(1), m.end(), end - 1))
+        for m in re.finditer(r"operator\s*(<=>|<|>)(?![<>=])\s*\(([^)]*)\)\s*(?:const)?\s*(?:noexcept)?\s*(\{|=\s*default|;)", t):
+            enc = [s for s in structs if s[1] <= m.start() < s[2]]
+            if not enc:
+                continue          # free function / StableCompare specialisation: covered by the first audit
+            name, b0, b1 = min(enc, key=lambda s: s[2] - s[1])
+            tag = f"{rel}: {name}::operator{m.group(1)}"
+            found.append(tag)
+            unions, ptrs = _unsafe_members(t[b0:b1])
+            if not unions and not ptrs:
+                continue
+            if m.group(3) == ";":
+                findings.append(f"{tag}: defined out of line in a struct with union/pointer members (not scanned)"); continue
+            if m.group(3).startswith("="):
+                findings.append(f"{tag}: defaulted comparison of a struct with union/pointer members {sorted(unions | ptrs)}"); continue
+            bend = _balanced(t, m.end() - 1)
+            body = t[m.end():bend - 1]
+            for u in sorted(unions):
+                if re.search(r"\b" + re.escape(u) + r"\b", body):
+                    findings.append(f"{tag}: reads union member `{u}` (a union overlaying indices and pointers orders by address)")
+            for q in sorted(ptrs):
+                chk = re.sub(r"\b" + re.escape(q) + r"\s*->\s*getId\s*\(\s*\)", " ID ", body)
+                if re.search(r"\b" + re.escape(q) + r"\b", chk):
+                    findings.append(f"{tag}: uses raw pointer member `{q}`")
+            if re.search(r"\bthis\b\s*[<>]|&\s*rhs\b|&\s*other\b", body):
+                findings.append(f"{tag}: compares object addresses")
+    return dict(operators=found, findings=sorted(set(findings)))
+
+
 def have_setarch():
     try:
         return subprocess.run(["setarch", "-R", "true"], capture_output=True).returncode == 0
@@ -213,6 +299,8 @@ def gen_programs(seed, n):
         progs.append((f"g{i}", [lines[0]] + extra + body, used))
     for i in range(max(6, n // 4)):
         progs.append(gen_clockfam(seed, i))
+    for i in range(max(6, n // 4)):
+        progs.append(gen_areafam(seed, i))
     return progs
 
 
@@ -282,6 +370,52 @@ def gen_clockfam(seed, i):
         L.append("endarea")
     L += ["in bx 2", "reg bq bx rst 01", "out bo bq"]
     return (did, L, ["clockfam"])
+
+
+def gen_areafam(seed, i):
+    """Design family for the exporter's ordering of concurrent statements: node groups of type AREA (`area NAME`
+    without `entity`) that become VHDL BLOCKs because they contain a sub-entity (directly or in a nested area), as
+    siblings of each other, of logic-only areas (processes) and of direct entity instantiations; in the root entity
+    or inside a sub-entity."""
+    import random
+    r = random.Random(seed * 900001 + i)
+    did = f"a{i}"
+    L = [f"design {did}", f"omode {OMODES[i % 3]}", f"tool {TOOLS[(i // 3) % 4]}", "in x 2", "inb c"]
+    inside = r.random() < 0.4
+    if inside:
+        L.append("area holder entity")
+    nl = r.choice([2, 2, 3, 3, 4, 5])
+    res = []
+    ops = ["add", "xor", "and", "or", "sub"]
+    for j in range(nl):
+        kind = r.choice(["ent", "ent", "ent", "nested", "plain", "direct"]) if j >= 2 else r.choice(["ent", "ent", "nested"])
+        n = f"lane_{chr(97 + j)}"
+        if kind == "direct":
+            L += [f"area {n}_direct entity", f"bin t{j} {r.choice(ops)} x x", f"reg r{j} t{j} rst {r.choice(['00', '01', '10', '11'])}", "endarea"]
+            res.append(f"r{j}")
+            continue
+        L += [f"area {n}", f"bin t{j} {r.choice(ops)} x x"]
+        if kind == "plain":
+            L += [f"mux m{j} c t{j} x", f"reg r{j} m{j}"]
+        else:
+            if kind == "nested":
+                L += [f"area {n}_inner", f"not q{j} t{j}"]
+            src = f"q{j}" if kind == "nested" else f"t{j}"
+            L += [f"area {n}_ent entity", f"mux m{j} c {src} x", f"reg r{j} m{j}" + (f" rst {r.choice(['00', '01', '10', '11'])}" if r.random() < 0.7 else ""), "endarea"]
+            if kind == "nested":
+                L.append("endarea")
+        L += [f"bin u{j} {r.choice(ops)} r{j} x", "endarea"]
+        res.append(f"u{j}")
+    acc = res[0]
+    for j, v in enumerate(res[1:]):
+        L.append(f"bin s{j} {r.choice(ops)} {acc} {v}")
+        acc = f"s{j}"
+    if inside:
+        L.append("endarea")
+    L.append(f"out o {acc}")
+    for j, v in enumerate(res[:2]):
+        L.append(f"out p{j} {v}")
+    return (did, L, ["areafam"])
 
 
 def sha(path):
@@ -370,6 +504,10 @@ def addr_info(d):
                 info["clocks"] = int(p[1]); info["clock_inversions"] = int(p[3])
             elif p[0] == "clockorder":
                 info["clockorder"] = p[1:]
+            elif p[0] == "vhdlentities":
+                info["vhdlentities"] = int(p[1]); info["entityrank"] = p[3:]
+            elif p[0] == "vhdlblocks":
+                info["vhdlblocks"] = int(p[1]); info["maxblocks"] = int(p[3]); info["blockrank"] = p[5:]
             elif p[0] == "allocs":
                 info["allocs"] = int(p[1]); info["swapped"] = int(p[3]); info["dummies"] = int(p[5])
     except OSError:
@@ -406,6 +544,7 @@ def main():
     rep.add_proof(res)
     forb = V.scan_forbidden()
     audit = audit_comparators(V.REPO)
+    audit2 = audit_ordering_operators(V.REPO)
     known, _ = V.known_findings(CID)
     known_partition = any(k.startswith(KNOWN_PARTITION) for k in known)
     thorough = rep.tier == "thorough"
@@ -670,6 +809,19 @@ def main():
             clk_designs += 1
             clk_mirrored += a2["clockorder"] != a3["clockorder"]
             clk_orders += len({tuple(addr_info(out / b / d).get("clockorder", [])) for b in [ref] + builds})
+    # objects the EXPORTER allocates during the export phase (vhdl::Block, vhdl::Entity)
+    blk_designs = blk_mirrored = ent_designs = ent_mirrored = 0
+    for d in designs:
+        a2, a3 = addr_info(out / "p0.2" / d), addr_info(out / "p0.3" / d)
+        if a2.get("maxblocks", 0) >= 2 and a3.get("maxblocks", 0) >= 2:
+            blk_designs += 1
+            blk_mirrored += a2["blockrank"] != a3["blockrank"]
+        if a2.get("vhdlentities", 0) >= 2 and a3.get("vhdlentities", 0) >= 2:
+            ent_designs += 1
+            ent_mirrored += a2["entityrank"] != a3["entityrank"]
+    if ((blk_designs and blk_mirrored < 0.9 * blk_designs) or (ent_designs and ent_mirrored < 0.9 * ent_designs)) and not replay:
+        V.infra_error(f"heap perturbation does not reorder the exporter's objects: descending/ascending pool builds differ in "
+                      f"{blk_mirrored}/{blk_designs} designs (vhdl::Block) and {ent_mirrored}/{ent_designs} designs (vhdl::Entity)")
     if clk_designs and clk_mirrored < 0.9 * clk_designs and not replay:
         V.infra_error(f"heap perturbation does not reorder Clock objects: descending/ascending pool builds order the clocks differently in only {clk_mirrored}/{clk_designs} designs")
     if weak and not replay:
@@ -697,6 +849,7 @@ def main():
     rep.cov["programs"] = len(designs)
     rep.cov["designs_generated"] = len([1 for d in designs if d.startswith("g")])
     rep.cov["designs_generated_clock_family"] = len([1 for d in designs if d.startswith("k")])
+    rep.cov["designs_generated_area_block_family"] = len([1 for d in designs if re.match(r"a\d+$", d)])
     rep.cov["designs_hand_written"] = len(hands)
     rep.cov["designs_corpus"] = len([1 for d in designs if d.startswith("c_")])
     rep.cov["designs_excluded_library_crashes_every_process"] = crashing
@@ -716,6 +869,10 @@ def main():
     rep.cov["designs_with_3_or_more_clocks"] = clk_designs
     rep.cov["of_those_clock_address_order_differs_between_descending_and_ascending_build"] = clk_mirrored
     rep.cov["mean_distinct_clock_address_orders_per_such_design"] = round(clk_orders / clk_designs, 1) if clk_designs else 0
+    rep.cov["designs_with_2_or_more_vhdl_blocks_in_one_entity"] = blk_designs
+    rep.cov["of_those_block_address_order_differs_between_descending_and_ascending_build"] = blk_mirrored
+    rep.cov["designs_with_2_or_more_vhdl_entities"] = ent_designs
+    rep.cov["of_those_entity_address_order_differs_between_descending_and_ascending_build"] = ent_mirrored
     rep.cov["address_inversion_fraction_min_median_max"] = (
         [min(inv_hist), sorted(inv_hist)[len(inv_hist) // 2], max(inv_hist)] if inv_hist else [])
     rep.cov["traces_validated_against_impl"] = tie_ok
@@ -733,6 +890,9 @@ def main():
     rep.cov["comparator_audit"] = dict(rule="static scan of every StableCompare<> specialisation (+ stableCompareWithId/stableCompareNodes) of the current tree: "
                                             "pointers only in nullptr tests, ->getId() or as arguments of another stable comparator; no std::tie/std::less/<=>/integer casts",
                                        definitions_scanned=audit["comparators"], findings=audit["findings"])
+    rep.cov["ordering_operator_lint"] = dict(rule="HEURISTIC regex lint: in-class operator< / > / <=> of export/vhdl structs that hold a union or raw pointers may not read those "
+                                                  "members (except ptr->getId()); defaulted or out-of-line comparisons of such structs are rejected",
+                                             operators_scanned=audit2["operators"], findings=audit2["findings"])
     sd = designs[0]
     rep.cov["samples"] = [
         dict(design=sd, program=prog_of.get(sd), reference=recipe[ref], compared=recipe[builds[0]],
@@ -763,6 +923,8 @@ def main():
         broken.append("forbidden constructs: " + "; ".join(forb[:5]))
     if audit["findings"]:
         broken.append("comparator audit (a StableCompare specialisation may order by address): " + "; ".join(audit["findings"][:6]))
+    if audit2["findings"]:
+        broken.append("ordering-operator lint (heuristic; export/vhdl struct with union/pointer members ordered through them): " + "; ".join(audit2["findings"][:6]))
     if len(audit["comparators"]) < 8:
         broken.append(f"comparator audit found only {len(audit['comparators'])} StableCompare definitions (scanner out of date?)")
     if driver is None:
